@@ -34,6 +34,7 @@ import (
 // longSession is one `work results <unit> 0` session of the long-lived scenario.
 type longSession struct {
 	via   string
+	idle  time.Duration // time between opening the session and asking
 	fetch func(unit string, timeout time.Duration) (got []byte, ended bool, broke string, err error)
 	got   []byte
 	ended bool   // clean end of stream
@@ -139,7 +140,7 @@ func listenerKinds(bin, dir, nodeID, sock string) (yaml string, sessions []*long
 	fmt.Fprintf(&sb, "- control-service:\n    service: ctlnct\n    tls: srvmutual\n")
 
 	tlsSession := func(via string, port int, cfg *tls.Config, idle time.Duration) *longSession {
-		return &longSession{via: via, fetch: func(unit string, timeout time.Duration) ([]byte, bool, string, error) {
+		return &longSession{via: via, idle: idle, fetch: func(unit string, timeout time.Duration) ([]byte, bool, string, error) {
 			c, err := openTLS(fmt.Sprintf("127.0.0.1:%d", port), cfg)
 			for t0 := time.Now(); err != nil && time.Since(t0) < 30*time.Second; { // the listeners come up one after the other
 				time.Sleep(200 * time.Millisecond)
